@@ -8,6 +8,8 @@
 //	harness <engine> gen <n>        print n generated case lines (seeded by VERIF_SEED)
 //	harness <engine> enum <scope>   print an exhaustive small-scope enumeration of case lines
 //	harness <engine> run            read case lines on stdin, run the real code, print "<case> => <obs>"
+//	harness <engine> serve          worker of an engine that supervises the code under test in a child process:
+//	                                one case line in, one observation line out, flushed per line
 //	harness extract <what>          print facts extracted from /repo's sources (go/ast, reflect, CRD yaml)
 package main
 
@@ -33,6 +35,9 @@ type Engine struct {
 	Enum func(scope string, emit func(string))
 	// Run runs the real code on one case line and returns the canonical observation.
 	Run func(line string) string
+	// Serve, when set, is what `harness <engine> serve` runs per line (Run then usually forwards to such a child process, so
+	// that code under test which kills the process — a panic on a goroutine of its own — costs one case, not the run).
+	Serve func(line string) string
 	// Serial is set when Run must not be called concurrently.
 	Serial bool
 }
@@ -91,6 +96,17 @@ func main() {
 		e.Enum(scope, emit)
 	case "run":
 		runAll(e, os.Stdin, emit)
+	case "serve":
+		f := e.Serve
+		if f == nil {
+			f = e.Run
+		}
+		sc := bufio.NewScanner(os.Stdin)
+		sc.Buffer(make([]byte, 1<<20), 1<<26)
+		for sc.Scan() {
+			emit(safeRun(&Engine{Run: f}, sc.Text()))
+			out.Flush()
+		}
 	default:
 		fmt.Fprintf(os.Stderr, "unknown mode %q\n", os.Args[2])
 		os.Exit(2)
